@@ -1,6 +1,7 @@
 (* Case runner for C03: decodes harness cases, runs the merge model, judges the implementation.
    input    = ["merge"; [profile dumps]; [[(mapping id, kernel relocation symbol)] per input]]
             | ["skey"; sample]                      (byte-level check of sampleKey)
+            | ["lkey"; profile with one location]   (field-level check of Location.key, lines string included)
    observed = ["ok"; dump; [shared pointer paths]; inputs-modified; compact-is-identity;
                [(mapping id, krs) of the result]; [dump of Merge(reversed inputs)]]
             | ["err"] | ["panic"; msg]              | ["key"; bytes] *)
@@ -13,6 +14,13 @@ Definition inputs_of (i : term) : list profile := map profile_of (gl (gn i 1)).
 Definition run_C03 (i : term) : term :=
   if String.eqb (gs (gn i 0)) "skey" then
     TL [TS "key"; of_zs (skey_bytes (skey_of_sample (sample_of (gn i 1))))]
+  else if String.eqb (gs (gn i 0)) "lkey" then
+    let p := profile_of (gn i 1) in
+    match p_location p with
+    | l :: _ => let '(rel, mid, slots, folded) := lkey_of p l in
+                TL [TS "key"; TL [TZ rel; TZ mid; TS (lines_key slots); of_bool folded]]
+    | [] => TL [TS "none"]
+    end
   else
   match merge (inputs_of i) with
   | MOk q => TL [TS "ok"; of_profile q]
@@ -68,7 +76,7 @@ Definition reversed_ok (ps : list profile) (q : profile) (o : term) : bool :=
   end.
 
 Definition spec_C03 (i o : term) : bool :=
-  if String.eqb (gs (gn i 0)) "skey" then true else
+  if String.eqb (gs (gn i 0)) "skey" || String.eqb (gs (gn i 0)) "lkey" then true else
   let ps := inputs_of i in
   let res := gs (gn o 0) in
   if negb (in_domain ps) then true            (* outside the statement's quantifier: nothing demanded *)
@@ -84,7 +92,7 @@ Definition spec_C03 (i o : term) : bool :=
 (* class 25 = F25: some input has a negative period (the documented "maximum" is then not what
    the code computes when only zero periods precede it) *)
 Definition cls_C03 (i : term) : list Z :=
-  if String.eqb (gs (gn i 0)) "skey" then [] else
+  if String.eqb (gs (gn i 0)) "skey" || String.eqb (gs (gn i 0)) "lkey" then [] else
   if in_F25 (inputs_of i) then [25%Z] else [].
 
 Definition judge_C03 := judge_all run_C03 eqv_C03 spec_C03 cls_C03 0%Z.
